@@ -217,8 +217,11 @@ fn fence_acqrel(execution: &mut Execution) {
 }
 
 fn fence_seqcst(execution: &mut Execution) {
-    fence_acqrel(execution);
+    fence_acq(execution);
     execution.threads.seq_cst_fence();
+    // What the fence learned from earlier `SeqCst` fences is part of what it
+    // releases.
+    fence_rel(execution);
 }
 
 impl<T: Numeric> Atomic<T> {
